@@ -45,11 +45,13 @@ package martian
 //@   requires req != nil
 //@   modifies nReq, reqSeq, lastReqErr, http.Request.*, url.URL.*, Session.hijacked, Context.skipRoundTrip, Context.skipLogging, Context.apiRequest
 //@   ensures nReq == old(nReq) + 1 && reqSeq == upd(old(reqSeq), old(nReq), self) && lastReqErr == result
+//@   ensures typeis(result, *MultiError) ==> merrIdle(as(result, *MultiError)) && as(result, *MultiError).gShared
 //@   ensures req.URL != nil && req.Header != nil && req.Body != nil
 //@ iface ResponseModifier.ModifyResponse
 //@   requires res != nil
 //@   modifies nRes, resSeq, lastResErr, http.Response.*, Session.hijacked, Context.skipRoundTrip, Context.skipLogging, Context.apiRequest
 //@   ensures nRes == old(nRes) + 1 && resSeq == upd(old(resSeq), old(nRes), self) && lastResErr == result
+//@   ensures typeis(result, *MultiError) ==> merrIdle(as(result, *MultiError)) && as(result, *MultiError).gShared
 //@   ensures res.Body != nil && res.Header != nil
 
 //@ extern iface http.RoundTripper.RoundTrip
@@ -357,7 +359,7 @@ package martian
 //@ func NewMultiError
 //@   serves C13
 //@   modifies nothing
-//@   ensures[empty-and-fresh] result != nil && fresh(result) && len(result.errs) == 0 && merrIdle(result) && !result.gShared
+//@   ensures[empty-and-fresh] result != nil && fresh(result) && len(result.errs) == 0 && arr(result.errs) == nil && merrIdle(result) && !result.gShared
 
 //@ func (*MultiError).Errors
 //@   serves C13
@@ -375,7 +377,8 @@ package martian
 //@   serves C13
 //@   requires merrIdle(merr) && err != nil
 //@   requires typeis(err, *MultiError) ==> merrIdle(as(err, *MultiError)) && as(err, *MultiError) != merr
-//@   modifies merr.errs, merr.mu.wheld, sync.RWMutex.rheld, merr.errs[*]
+//@   modifies merr.errs, merr.mu.wheld, as(err, *MultiError).mu.rheld, merr.errs[*]
+//@   ensures[backing-array-kept-or-fresh] arr(merr.errs) == old(arr(merr.errs)) || !wasAllocated(merr.errs)
 //@   ensures[lock-released] merrIdle(merr)
 //@   ensures[flattened-count] len(merr.errs) == old(len(merr.errs)) + old(errCount(err))
 //@   ensures[depth-never-exceeds-one] old(flat(merr)) && !typeis(err, *MultiError) ==> flat(merr)
